@@ -47,7 +47,13 @@ func TestReplayInitOverlap(t *testing.T) {
 	configuration.CurrentConfig.FanResponseDelay = 0
 	configuration.CurrentConfig.MaxRpmDiffForSettledFan = 20
 	rec := &replayRecorder{started: map[string]bool{}, finished: map[string]bool{}}
-	root := t.TempDir()
+	// not t.TempDir(): the second sequence is still running when the test returns, and a cleanup that
+	// races with its file writes would fail the test for a reason unrelated to the property
+	root, err := os.MkdirTemp("", "replay-init-overlap")
+	if err != nil {
+		t.Fatal(err)
+	}
+	defer func() { _ = os.RemoveAll(root) }()
 	p := persistence.NewPersistence(filepath.Join(root, "fan2go.db"))
 	done := make(chan string, 2)
 	for _, id := range []string{"A", "B"} {
